@@ -490,7 +490,7 @@ static int cmd_run(int argc, char **argv)
                 }
                 if (rr.violated()) {
                         std::string vprop = property_of(rr.oracle);
-                        bool own = vprop == prop;
+                        bool own = vprop == prop || rr.alt == prop;
                         if (!own) {
                                 foreign++;
                                 if (foreign_by[rr.oracle]++ < 3) {
